@@ -70,12 +70,16 @@ func StartKeygenCommon(taproot bool, group curve.Curve, participants []party.ID,
 			}
 		}
 
+		// the rounds update the share in place: work on a copy, so that a refresh leaves the caller's
+		// existing configuration as it was
+		share := group.NewScalar().Set(privateShare)
+
 		return &round1{
 			Helper:             helper,
 			taproot:            taproot,
 			threshold:          threshold,
 			refresh:            refresh,
-			privateShare:       privateShare,
+			privateShare:       share,
 			verificationShares: verificationSharesCopy,
 			publicKey:          publicKey,
 		}, nil
